@@ -212,6 +212,17 @@ def search(rec, ctx):
 
     drive(st.randoms(use_true_random=False), fmut, ctx.budget(8000, 150000), ctx.hseed("fmut"))
 
+    # bytes literals with non-ASCII characters (with and without escapes, every prefix spelling)
+    for lit in ctx.shard([p + q + body + q for p in ("b", "B", "rb", "Rb", "bR", "BR") for q in ("'", '"', "'''") for body in ("café", "é", "naïve\\n", "日本", "a\\x41é")]):
+        for tmpl in ("x = {S}\n", "f({S}, 1)\n", "d = {{{S}: 1}}\n", "x = b'a' {S}\n", "match v:\n    case {S}: pass\n"):
+            check(rec, {"src": tmpl.replace("{{", "\x00").replace("}}", "\x01").replace("{S}", lit).replace("\x00", "{").replace("\x01", "}"), "stream": "non-ascii-bytes", "near": True})
+
+    # every sequence of up to four clauses after 'try:' (which of them form a try statement is CPython's call)
+    CLAUSES = ["except:", "except E:", "except E as e:", "except* E:", "else:", "finally:"]
+    seqs = [()] + [s for n in (1, 2, 3, 4) for s in itertools.product(CLAUSES, repeat=n)]
+    for seq in ctx.shard(seqs):
+        check(rec, {"src": "try:\n    a\n" + "".join(c + "\n    b\n" for c in seq), "stream": "try-clause-sequences", "near": True})
+
     # a single-quoted literal goes on only after an unescaped backslash, and only for that one line
     for src in ctx.shard(STRING_CONTINUATIONS):
         for tmpl in ("{S}", "if a:\n    {S}", "f(1)\n{S}y = 2\n"):
